@@ -9,7 +9,7 @@ are DATA handed in by the harness (`pos`, `block`); everything else is computed 
   stream xDP                                         → ok | err duplicate
   draw  xKEY xTIME xAK xSEED req                     → ok s:p:n,… | err lookup
   idraw xKEY xTIME xAK xSEED req                     → same for an initializes_crn_attributes stream
-  filter xKEY xTIME xAK xSEED shift req probs        → ok kept…          probs: s:p | l:p,p,… | x:i,i,…:p,p,…
+  filter xKEY xTIME xAK xSEED shift req probs        → ok kept…          probs: s:p | l:p,p,… | t:p,p,… (tuple) | x:i,i,…:p,p,…
   choice xKEY xTIME xAK xSEED req k weights          → ok i,i,…          weights: none | 1:Q:c,c | 2:Q:c,c;c,c  (c = n | R)
   rchoice D draws k weights                          → `_choice` on given draws
 A seed string without a registered block → `err noblock` (never a default block). -/
@@ -74,6 +74,7 @@ def parseProbs (t : String) : Option Probs :=
   match t.splitOn ":" with
   | ["s", p] => p.toNat?.map .scalar
   | ["l", ps] => (natList ps).map .list
+  | ["t", ps] => (natList ps).map .tuple
   | ["x", i, ps] => do
     let i ← natList i
     let ps ← natList ps
